@@ -545,10 +545,24 @@ def same_value(a, b, p, path="top"):
                 return r
         return None
     if ka_ == "V":
-        return same_value(a[1], b[1], p) or same_value(a[2], b[2], p)
+        r = same_value(a[1], b[1], p) or same_value(a[2], b[2], p)
+        if r and b == ["V", ["I", "0"], ["I", "0"]] and a[1][0] in "IFX" and a[2][0] in "IFX":
+            # interval(a, b) answers [0, 0] when a > b: the bounds as re-read from their rounded spellings can cross
+            lo, hi = reread_bound(a[1], p), reread_bound(a[2], p)
+            if lo > hi:
+                return ("interval", "bounds-cross-after-rounding")
+        return r
     if a != b:
         return ({"I": "int", "F": "frac", "S": "str", "T": "instant"}.get(ka_, "other"), "value")
     return None
+
+
+def reread_bound(s, p):
+    """the value the lexer gives to the re-entry spelling of a number (a spelling with a '.' goes through float())"""
+    if s[0] != "X":
+        return exact_of(s)
+    txt = ("{:.%dg}" % p).format(fx(s[1]))
+    return Fraction(float(txt)) if "." in txt else Fraction(txt)
 
 
 def leaf_kinds(s, acc=None):
@@ -787,7 +801,7 @@ FIXED = [
     "3 m", "3 rad", "1.5 rad", "(1/2) rad", "{3 rad}", "[1,2]", "{(1/2) rad, 2 m}", "(1/2) m", "(-1/2) m", "(-7/2) m s^-2", "(7/2) kg m^2 s^-3 A^-1",
     "1.5 kg m", "1.23456789 m", "(0.1+0.2) m", "sqrt(2) m", "1 g", "1 mm^2", "3 deg", "1 byte", "1 dozen", "3 N", "-3 m", "2 kg^2 m^-3",
     "{1, 1/2, 2.5}", "{{1,2},{3 m, (1/2) s}}", "{}", "{{}}", "{{{1/2}}}", "{1, {2, {3, {4}}}}", "{[1,2], [1/2, 0.7]}", '{"a", #2020-01-01#}',
-    "ln([1,8])", "sqrt([2,3])", "[1/2, 3/4]", "[-7/2, 1e-5*1.5]", "[0.1, 0.7]", "[-3/2, 2.5]", "[1/3, 123456789.5]", "[1234567.5, 12345678.25]",
+    "ln([1,8])", "sqrt([2,3])", "[1/2, 3/4]", "[0.09999999, 1/10]", "[1/3, 0.33333333334]", "[-7/2, 1e-5*1.5]", "[0.1, 0.7]", "[-3/2, 2.5]", "[1/3, 123456789.5]", "[1234567.5, 12345678.25]",
     '"abc"', '""', '"a b  c"', '"a\\"b"', '"a\\\\b"', '"a\\b"', '"say \\"hi\\""', '"{1, 2}"', '"#"',
     "#2020-01-01#", "#2020#", "#2020-02#", "#2020-01-01T10:20:30.123456#", "#2020-01-01T10:20:30+02:00#", "#2020-01-01T00:00:00-05:30#",
     "#2020-01-01T10:00:00.5+01:00:30#", "#0001-01-01#", "#9999-12-31T23:59:59.999999#",
@@ -989,7 +1003,7 @@ def run(ctx):
     # ---- the implementation against the model and against the property's own clauses
     hist, forms, nontrivial, samples = {}, {}, set(), []
     skipped, disagreements, reentry_checked, denote_checked = 0, 0, 0, 0
-    for c, o, ref in zip(cases, obs, refs):
+    for ci, (c, o, ref) in enumerate(zip(cases, obs, refs)):
         text, p = c["text"], c["p"]
         rp = dict(text=text, p=p)
         if not isinstance(o, dict) or o.get("hung"):
@@ -1095,7 +1109,7 @@ def run(ctx):
                 rep.violation(sig, "C15 fails: the re-entry text %r of %r (p=%d) evaluates to a different value [%s/%s]: %s instead of %s"
                               % (rt[:120], text[:100], p, diff[0], diff[1], json.dumps(re_["struct"])[:160], json.dumps(s)[:160]),
                               dict(rp, reentry=rt, observed=re_["struct"], value=s))
-        if len(samples) < 8 and len(hist) > len(samples):
+        if len(samples) < 12 and ci % max(1, len(cases) // 12) == 7:
             samples.append(dict(input=text[:80], p=p, displayed=o["disp0"].get("out", "")[:80], reentry=rt[:80],
                                 model=(model_text(ref["d0"]) or "")[:80] if ref else None))
     rep.coverage.update(dict(
